@@ -44,6 +44,7 @@ CTYPE = {1: 'int', 2: 'int8_t', 3: 'uint8_t', 4: 'int16_t', 5: 'uint16_t', 6: 'i
 KNOWN_KINDS = 0b001111111
 ALL_KINDS = 0b111111111
 FINDING_ENUM = 'enum-value-outside-32-bits'
+BUDGET = {'quick': 165, 'thorough': 1380}     # seconds of wall clock for the whole run
 
 FUNCS = [('girepository/giroffsets.c',
           ['compute_struct_field_offsets', 'compute_union_field_offsets', 'get_field_size_alignment',
@@ -380,7 +381,7 @@ def validate(built, report, seed):
     descs = [decode(inp) for _, inp in cases]
     gcc, _src = gcc_layouts(descs, built.work, 'val')
     mod = lx.load_module(built.ll)
-    problems, agree = [], 0
+    problems, agree, violated = [], 0, []
     for (name, inp), desc, g in zip(cases, descs, gcc):
         st, nat, _ev = built.run_native(inp, 'val')
         try:
@@ -389,32 +390,46 @@ def validate(built, report, seed):
             problems.append('%s: LLSYM concrete mode failed: %s' % (name, e))
             continue
         exp = expected(desc, g)
-        if res.queries or res.failures or res.inconclusive or res.paths != 1 or res.outputs[0] is None:
-            problems.append('%s: LLSYM concrete mode was not concrete (paths=%d queries=%d failures=%d %s)' % (
-                name, res.paths, res.queries, len(res.failures), res.inconclusive[:1]))
-            continue
-        sym = res.outputs[0]
-        if st not in ('done', 'exit'):
-            problems.append('%s: native harness ended with %s' % (name, st))
-        elif sym != nat:
-            diff = [k2 for k2 in set(sym) | set(nat) if sym.get(k2) != nat.get(k2)]
-            problems.append('%s: LLSYM != native on %s' % (name, ', '.join(
-                '%s (%s vs %s)' % (k2, sym.get(k2), nat.get(k2)) for k2 in sorted(diff)[:4])))
+        # (a) translator: the two executions of the same harness must be indistinguishable,
+        #     including a failing assertion (a defective giroffsets.c is not a translator fault)
+        if st.startswith('assert:') or st.startswith('fail:'):
+            same = len(res.failures) == 1 and res.failures[0].id == int(st.split(':')[1]) and \
+                res.failures[0].outputs == nat and res.queries <= 1
+            sym = res.failures[0].outputs if res.failures else {}
+        elif st in ('done', 'exit'):
+            same = res.paths == 1 and not res.failures and not res.queries and res.outputs[0] == nat
+            sym = (res.outputs[0] if res.paths == 1 else None) or {}
         else:
-            bad = mismatches(nat, exp)
-            if bad:
-                problems.append('%s: giroffsets.c != gcc: %s' % (name, '; '.join(bad[:3])))
-            # the harness oracle against gcc
-            ora = {'size': nat.get('want_size'), 'align': nat.get('want_align')}
-            for k2, v in nat.items():
-                if k2.startswith('want_off['):
-                    ora[k2[5:]] = v
-            obad = mismatches(ora, dict((k2, v) for k2, v in exp.items() if k2 in ('size', 'align') or k2.startswith('off[')))
-            if obad and 'fatal' not in exp:
-                problems.append('%s: harness oracle != gcc: %s' % (name, '; '.join(obad[:3])))
-            if not bad and not obad:
-                agree += 1
+            problems.append('%s: native harness ended with %s' % (name, st))
+            continue
+        if not same or res.inconclusive:
+            diff = sorted(k2 for k2 in set(sym) | set(nat) if sym.get(k2) != nat.get(k2))
+            problems.append('%s: LLSYM concrete mode != native (native %s; LLSYM paths=%d failures=%s queries=%d %s; '
+                            'differing outputs: %s)' % (name, st, res.paths, [f.id for f in res.failures], res.queries,
+                                                        res.inconclusive[:1], ', '.join(
+                                                            '%s %s vs %s' % (k2, sym.get(k2), nat.get(k2)) for k2 in diff[:4])))
+            continue
+        # (b) the harness oracle against gcc (on what was output before a failing assertion)
+        ora = {'size': nat.get('want_size'), 'align': nat.get('want_align')}
+        for k2, v in nat.items():
+            if k2.startswith('want_off['):
+                ora[k2[5:]] = v
+        obad = [] if 'fatal' in exp else mismatches(ora, dict((k2, v) for k2, v in exp.items() if k2 in ora))
+        if obad:
+            problems.append('%s: harness oracle != gcc: %s' % (name, '; '.join(obad[:3])))
+            continue
+        # (c) the code under test against gcc: a disagreement here is a violation seen on a fixed
+        #     input, not a harness fault; the symbolic stage below has to find it as well
+        bad = mismatches(nat, dict((k2, v) for k2, v in exp.items() if k2 in nat or st in ('done', 'exit')))
+        if bad or st not in ('done', 'exit'):
+            violated.append('%s: %s' % (name, '; '.join(bad[:3]) or st))
+        else:
+            agree += 1
+    if violated:
+        report.notes.append('concrete cases on which giroffsets.c disagrees with gcc (%d): %s' % (
+            len(violated), ' | '.join(violated)[:1500]))
     report.validation.update({'concrete_cases': len(cases), 'concrete_agreements': agree,
+                              'concrete_cases_violating_the_property': len(violated),
                               'compared': 'native harness (gcc -O0 + libffi) == LLSYM concrete mode == '
                                           'gcc sizeof/_Alignof/offsetof of the rendered declaration == harness oracle',
                               'cases': [n for n, _ in cases]})
@@ -469,6 +484,9 @@ def partitions(tier):
             if k == kmax:
                 c.update(cfg_aelem=1)
                 txt = txt.replace('of basic / pointer / enum', 'of basic')
+            if k == 5:      # 10^5 paths with 1-2 nested members did not fit 25 minutes on a shared machine
+                c.update(cfg_nm=1)
+                txt = txt.replace('1-2 basic members', '1 basic member')
             add('%s k=%d members of known size' % (TOP_NAMES[top], k), c,
                 '%s of exactly %d members; %s' % (TOP_NAMES[top], k, txt), 0 if k < 3 else 2 if k < 5 else 3, mask)
     # (2) a member of unknown size somewhere
@@ -517,7 +535,7 @@ def _run_part(args):
 def confirm(built, inputs, tag='cex'):
     """Replay a counterexample outside the engine. -> (confirmed?, detail, payload)"""
     inp = dict((k2, int(v)) for k2, v in inputs.items())
-    st, real, ev = built.run_native(inp, tag)
+    st, real, ev = built.run_native(inp, tag, keep_going=True)
     desc = decode(inp)
     gcc, src = gcc_layouts([desc], built.work, tag)
     exp = expected(desc, gcc[0])
@@ -559,14 +577,15 @@ def run(report, tier, seed, only=None):
     parts = partitions(tier)
     if only:
         parts = [p for p in parts if only in p.item]
-    budget = (165 if tier == 'quick' else 1380) - (time.time() - t_start)
+    budget = BUDGET[tier] - (time.time() - t_start)
     per_task = 110 if tier == 'quick' else 1100
     opts = dict(seed=seed, timeout=per_task, query_timeout_ms=60000 if tier == 'quick' else 300000)
-    order = sorted(range(len(parts)), key=lambda i: (-parts[i].fixed['k'], i))
-    rnd = random.Random(seed)
+    # tiny partitions first (they finish in seconds), then the largest k first for a short makespan
+    rank = lambda i: (parts[i].fixed['k'] > 2, -parts[i].fixed['k'])
+    order = list(range(len(parts)))
     if seed:
-        rnd.shuffle(order)
-        order.sort(key=lambda i: -parts[i].fixed['k'])
+        random.Random(seed).shuffle(order)
+    order.sort(key=rank)
     results = {}
     items = []
     for p in parts:
@@ -575,13 +594,12 @@ def run(report, tier, seed, only=None):
     workers = min(16, os.cpu_count() or 1)
     deadline = time.time() + budget
     with concurrent.futures.ProcessPoolExecutor(max_workers=workers) as pool:
-        futs = {}
-        for i in order:
-            futs[pool.submit(_run_part, (built.ll, parts[i].fixed, opts))] = i
-        twins = {}
-        for name in items:
+        futs, twins = {}, {}
+        for name in items:        # vacuity twins first: they stop at their first path
             p = next(p for p in parts if p.item == name)
             twins[pool.submit(_run_part, (built.ll, dict(p.fixed, cfg_twin=1), dict(opts, timeout=60)))] = name
+        for i in order:
+            futs[pool.submit(_run_part, (built.ll, parts[i].fixed, opts))] = i
         pending = set(futs) | set(twins)
         twin_res = {}
         while pending:
@@ -643,8 +661,10 @@ def _item(built, name, ps, rs, twin, tier):
         why.extend(sorted(set(inc))[:3])
         return Item(name, ENGINE, INCONCLUSIVE, detail='; '.join(why)[:600], **base)
     # vacuity twin: the same harness with a false final assertion must be refuted, natively too
-    if twin is None or 'error' in twin:
-        return Item(name, ENGINE, ERROR, detail='vacuity twin did not run: %s' % (twin or {}).get('error', 'no result'), **base)
+    if twin is None:
+        return Item(name, ENGINE, INCONCLUSIVE, detail='vacuity twin did not finish inside the tier budget', **base)
+    if 'error' in twin:
+        return Item(name, ENGINE, ERROR, detail='vacuity twin did not run: %s' % twin['error'][:800], **base)
     tf = [f for f in twin['failures'] if f['id'] == 99]
     if not tf:
         return Item(name, ENGINE, ERROR, detail='vacuous: the twin (final assertion false) was not refuted', **base)
